@@ -32,6 +32,15 @@ def evalConc (prop : String) (ins outs : List String) : Verdict :=
     | some "found" => .ok (if noHead then "gated-nohead" else "gated")
     | some r => .prop "c12_no_lost_wakeup" s!"gated replay: {" ".intercalate ins} => {r}"
     | none => .bad "gated"
+  | some "stalledreader" =>
+    match kvNat? ins "n", kvNat? ins "to", kv? outs "parked", kv? outs "delete", kv? outs "reader", kvNat? outs "head", kvNat? outs "tail", kv? outs "below" with
+    | some n, some to, some "yes", some "ok", some rd, some hd, some tl, some below =>
+      if rd == "hang" then .prop "c17_no_torn_read" "the stalled reader never returned" else
+      if tl != to || below != "absent" then .prop "c17_tail_delete_racing_append_gap_free" s!"after DeleteRange(1,{to}) overtook a stalled reader of {to - 1} and the head advanced: Tail={tl}, height {to - 1} {below}" else
+      if hd != n + 2 then .prop "c17_synced_appends_readable" s!"head={hd} after appending up to {n + 2}" else .ok "stalledreader"
+    | _, _, some "no", _, _, _, _, _ => .bad "stalledreader: the reader was not stalled"
+    | _, _, _, some "err", _, _, _, _ => .prop "c08_accepts_valid_ranges" "DeleteRange failed while a reader was stalled"
+    | _, _, _, _, _, _, _, _ => .bad "stalledreader fields"
   | some "slowlookup" =>
     match kv? outs "parkedA", kv? outs "b", kv? outs "c" with
     | some "yes", some b, some c =>
